@@ -1447,7 +1447,7 @@ class Gen:
         body = ["bin", "+", ["bin", "*", ["var", "r"], ["lit", "7", "int", 7]], inner]
         return ["expr", ["asg", "=", ["var", "r"], ["bin", "%", ["par", body], ["lit", "1000003", "int", 1000003]]]]
 
-    def body(self, scope, depth, in_loop, in_switch=False, nmax=3):
+    def body(self, scope, depth, in_loop, in_switch=False, nmax=3, loop_body=False):
         """list of statements for a nested body; declarations stay local to it"""
         local = list(scope)
         out = []
@@ -1456,6 +1456,12 @@ class Gen:
             if s is not None:
                 out.append(s)
                 local.extend(new)
+            if loop_body and self.p(0.2):
+                # if (c) continue; / if (c) break; directly in a loop body
+                self.feat.add("break/continue")
+                cond = self.full(self.cond, local, 1)
+                b = [[self.pick(["continue", "continue", "break"])]]
+                out.append(["if", [[cond, b, self.braces_for(b)]], None, True])
         if not out:
             out.append(self.acc_stmt(local))
         return out
@@ -1573,7 +1579,7 @@ class Gen:
             init = ["decl", "", it, sp, [[i, lit(0)], [j, lit(2 * n)]]]
             cond = ["bin", "<", var, ["var", j]]
             upd = ["comma", ["pre", "++", var], ["pre", "--", ["var", j]]]
-            body = self.body(scope + [iv, {"name": j, "kind": "scalar", "t": it, "const": True}], depth - 1, True)
+            body = self.body(scope + [iv, {"name": j, "kind": "scalar", "t": it, "const": True}], depth - 1, True, loop_body=True)
             return ["for", init, cond, upd, body, self.braces_for(body)]
         else:
             # loop variable declared before the loop, init as expression statement, condition with && / ternary
@@ -1581,9 +1587,9 @@ class Gen:
             init = ["expr", ["asg", "=", var, lit(0)]]
             cond = ["bin", "&&", ["bin", "<", var, lit(n)], ["bin", "<", ["var", "r"], ["lit", "2000000", "int", 2000000]]]
             upd = ["post", "++", var]
-            body = self.body(scope + [iv], depth - 1, True)
+            body = self.body(scope + [iv], depth - 1, True, loop_body=True)
             return ["block", [["decl", "", it, sp, [[i, lit(7)]]], ["for", init, cond, upd, body, self.braces_for(body)]]]
-        body = self.body(scope + [iv], depth - 1, True)
+        body = self.body(scope + [iv], depth - 1, True, loop_body=True)
         return ["for", init, cond, upd, body, self.braces_for(body)]
 
     def while_stmt(self, scope, depth):
@@ -1598,19 +1604,19 @@ class Gen:
             self.feat.add("while")
             if self.p(0.5):
                 cond = ["bin", "<", ["post", "++", var], lit(n)]
-                body = self.body(scope + [wv], depth - 1, True)
+                body = self.body(scope + [wv], depth - 1, True, loop_body=True)
             else:
                 cond = ["bin", "<", var, lit(n)]
-                body = [["expr", [self.pick(["pre", "post"]), "++", var]]] + self.body(scope + [wv], depth - 1, True, nmax=2)
+                body = [["expr", [self.pick(["pre", "post"]), "++", var]]] + self.body(scope + [wv], depth - 1, True, nmax=2, loop_body=True)
             st = ["while", cond, body, self.braces_for(body)]
         else:
             self.feat.add("do-while")
             if self.p(0.5):
                 cond = ["bin", "<", ["pre", "++", var], lit(n)]
-                body = self.body(scope + [wv], depth - 1, True)
+                body = self.body(scope + [wv], depth - 1, True, loop_body=True)
             else:
                 cond = ["bin", self.pick(["<", "!="]), var, lit(n)]
-                body = [["expr", ["asg", "+=", var, lit(1)]]] + self.body(scope + [wv], depth - 1, True, nmax=2)
+                body = [["expr", ["asg", "+=", var, lit(1)]]] + self.body(scope + [wv], depth - 1, True, nmax=2, loop_body=True)
             st = ["do", body, cond, self.braces_for(body)]
         return ["block", [decl, st]], []
 
